@@ -62,7 +62,7 @@ CHECKS = {
         "required_classes": ["total:grammar:accepted", "total:deep", "local:table:compared", "local:index:compared"],
         "timeout": {"quick": 300, "thorough": 1500},
         "jobs": [
-            job("total", "c16", ["TestC16Total"], 20000, 400000, 1, 6),
+            job("total", "c16", ["TestC16Total"], 20000, 400000, 1, 6, pending=True),
             job("local", "c16", ["TestC16Local"], 6000, 60000, 2, 10),
             job("fuzz", "c16", ["FuzzC16Parse"], 1, 1, 1, 1, fuzz={"target": "FuzzC16Parse", "convert": "TestC16FromFuzzFile", "time": {"quick": 0, "thorough": 240}}),
         ],
@@ -141,10 +141,11 @@ CHECKS = {
                  "Non-trivial = depth >= 2 and at least one cut point equal to an interior entry or the first/last entry of a leaf."),
         "assumptions": ["system libsqlite3 (3.40.1) validates the builder", "refcmp is validated against SQLite by C11"],
         "min_nontrivial": {"quick": 150, "thorough": 2000},
-        "required_classes": ["maxdepth=2", "maxdepth=3", "maxdepth=4", "sqlite-validated", "cut-points-at-page-boundary"],
+        "required_classes": ["maxdepth=2", "maxdepth=3", "maxdepth=4", "sqlite-validated", "cut-points-at-page-boundary", "sqlite:entries<=1000"],
         "timeout": {"quick": 300, "thorough": 1500},
         "jobs": [
             job("ranges", "c13", ["TestC13Ranges"], 600, 6000, 2, 10),
+            job("sqlite", "c13", ["TestC13SQLite"], 120, 2000, 2, 6),
         ],
     },
     "C17": {
@@ -223,10 +224,10 @@ CHECKS = {
         "required_classes": ["mut:cell.child", "mut:ovfl.next", "mut:cell.ovfl", "mut:page.cellptr", "mut:rec.serial", "mut:cell.paysize", "mut:truncated", "mut:journal", "schema:rows", "driver", "raw"],
         "timeout": {"quick": 400, "thorough": 2400},
         "jobs": [
-            job("mutate", "c05", ["TestC05Mutate"], 2500, 60000, 3, 10),
-            job("schema", "c05", ["TestC05Schema"], 1500, 30000, 2, 6),
+            job("mutate", "c05", ["TestC05Mutate"], 2500, 60000, 3, 10, pending=True),
+            job("schema", "c05", ["TestC05Schema"], 1500, 30000, 2, 6, pending=True),
             job("driver", "c05", ["TestC05Driver"], 300, 6000, 1, 4),
-            job("raw", "c05", ["TestC05Raw"], 3000, 100000, 1, 2),
+            job("raw", "c05", ["TestC05Raw"], 3000, 100000, 1, 2, pending=True),
             job("fuzz", "c05", ["FuzzC05Image"], 1, 1, 1, 1, fuzz={"target": "FuzzC05Image", "convert": "TestC05FromFuzzFile", "time": {"quick": 0, "thorough": 420}}),
         ],
     },
@@ -311,7 +312,7 @@ CHECKS = {
                  "seen an intervening commit (classes: after dml / ddl / growth / shrink / vacuum). Distinct = fingerprint of the spec."),
         "assumptions": ["system libsqlite3 (3.40.1) is writer and reference"],
         "min_nontrivial": {"quick": 150, "thorough": 3000},
-        "required_classes": ["read-after:dml", "read-after:ddl", "read-after:growth", "read-after:vacuum", "file-grew", "more-than-100-pages"],
+        "required_classes": ["read-after:dml", "read-after:ddl", "read-after:growth", "read-after:vacuum", "read-after:pagesize", "file-grew", "more-than-100-pages"],
         "timeout": {"quick": 400, "thorough": 2400},
         "jobs": [
             job("history", "c08", ["TestC08History"], 130, 2500, 4, 12),
@@ -328,7 +329,7 @@ CHECKS = {
                  "held PENDING or EXCLUSIVE, or RESERVED with a journal on disk. Distinct = fingerprint of the spec."),
         "assumptions": ["system libsqlite3 (3.40.1) unix VFS with POSIX advisory locks is the writer"],
         "min_nontrivial": {"quick": 150, "thorough": 3000},
-        "required_classes": ["state:UNLOCKED", "state:SHARED", "state:RESERVED", "state:RESERVED+journal", "state:PENDING", "state:EXCLUSIVE", "state:EXCLUSIVE+journal+spilled"],
+        "required_classes": ["state:UNLOCKED", "state:SHARED", "state:RESERVED", "state:RESERVED+journal", "state:PENDING", "state:EXCLUSIVE", "state:EXCLUSIVE+journal+spilled", "sync-off=true", "sync-off=false"],
         "timeout": {"quick": 400, "thorough": 2400},
         "jobs": [
             job("states", "c07", ["TestC07LockStates"], 250, 5000, 3, 10),
@@ -346,7 +347,7 @@ CHECKS = {
                  "plus database/sql result sets read for k rows then closed / cancelled / drained. Non-trivial = at least one side action ran. Distinct = fingerprint of the spec."),
         "assumptions": ["Linux POSIX record locks; system libsqlite3 (3.40.1) is the writer"],
         "min_nontrivial": {"quick": 150, "thorough": 3000},
-        "required_classes": ["exit:normal", "exit:stop", "exit:error-column", "exit:fault", "exit:panic", "side:commit-attempt", "side:peer-hold", "side:other-file", "side:same-process-read", "op:IndexedSelect-wr", "driver:cancel", "writer:open-txn", "writer:hot-journal"],
+        "required_classes": ["exit:normal", "exit:stop", "exit:error-column", "exit:fault", "exit:panic", "side:commit-attempt", "side:peer-hold", "side:other-file", "side:same-process-read", "op:IndexedSelect-wr", "driver:cancel", "writer:open-txn", "writer:hot-journal", "writer:raw-exclusive"],
         "timeout": {"quick": 400, "thorough": 2400},
         "jobs": [
             job("held", "c06", ["TestC06Held"], 220, 4000, 3, 10),
@@ -369,7 +370,7 @@ CHECKS = {
                  "(database pages already overwritten, recovery pending). Distinct = fingerprint of (spec, k, torn)."),
         "assumptions": ["system libsqlite3 (3.40.1) is writer and recovery reference", "LD_PRELOAD interposition sees every file operation of the writer (checked: the uninterrupted run's log is non-empty and the kill happens at each k)"],
         "min_nontrivial": {"quick": 60, "thorough": 2000},
-        "required_classes": ["crash:DELETE", "crash:TRUNCATE", "crash:PERSIST", "journal-left:magic", "journal-left:absent", "sqlittle-read", "sqlittle-refused"],
+        "required_classes": ["crash:DELETE", "crash:TRUNCATE", "crash:PERSIST", "journal-left:magic", "journal-left:absent", "sqlittle-read", "sqlittle-refused", "sector:4096", "sector:512"],
         "timeout": {"quick": 400, "thorough": 2400},
         "jobs": [
             job("crash", "c09", ["TestC09Crash"], 4, 60, 4, 12),
